@@ -231,3 +231,82 @@ def register(reg):
     probe("sneaky", {"d": COMP}, INT, [("X", "frame"), ("T", "result == 0")])
     probe("lookup", {"d": COMP, "k": STR}, INT, [("X", "no-KeyError"), ("T", "implies(k in d, result == d[k])")])
     probe("impure_len", {"xs": LI}, INT, [("X", "frame"), ("T", "result == len(xs)")], pure=True)
+    reg.classdecl("Cell", {"v": INT})
+    probe("two_cells", {"o1": Obj("Cell"), "o2": Obj("Cell")}, INT, [
+        ("T", "result == 1 or result == 2"),
+        ("T", "implies(not (o1 is o2), result == 1)"),
+        ("F", "result == 1"),          # false when o1 is o2
+    ], modifies=["o1", "o2"])
+    probe("truthy_a", {"xs": LI, "d": COMP}, INT, [
+        ("T", "implies(len(xs) == 0 and len(d) == 0, result == 0)"),
+        ("T", "implies(len(xs) > 0 and len(d) == 0, result == 1)"),
+        ("T", "implies(len(xs) > 0 and len(d) > 0, result == 11)"),
+        ("F", "result >= 1"),
+        ("F", "result <= 10"),
+    ])
+    probe("truthy_b", {"s": STR, "n": INT, "o": Ty("opt", INT)}, INT, [
+        ("T", "implies(s == '' and n == 0 and not is_none(o), result == 0)"),
+        ("T", "implies(s == 'a' and n == -1 and is_none(o), result == 11100)"),
+        ("F", "result < 10000"),
+        ("F", "implies(s != '', result < 100)"),
+        ("F", "implies(n < 0, result < 1000)"),
+    ])
+    probe("countdown", {"n": INT}, INT, [
+        ("T", "result == (n if n > 0 else 0)"),
+        ("F", "result == n"),
+        ("F", "result == 0"),
+    ], loops={0: {"inv": ["k >= 0 and (n + k == old(n) if old(n) > 0 else (k == 0 and n == old(n)))", "implies(old(n) > 0, n >= 0)"]}})
+    probe("ext", {"a": LI, "b": LI}, INT, [
+        ("T", "implies(not (a is b), result == old(len(a)) + len(b))"),
+        ("F", "result == old(len(a))"),
+        ("F", "len(b) == old(len(b))"),      # false when a is b
+    ], modifies=["a"])
+    probe("popit", {"a": LI}, INT, [
+        ("T", "result == old(a[len(a) - 1]) and len(a) == old(len(a)) - 1"),
+        ("F", "len(a) == old(len(a))"),
+        ("F", "result == old(a[0])"),
+    ], modifies=["a"], raises={"IndexError": "len(a) == 0"})
+    probe("concat", {"a": LI, "b": LI}, LI, [
+        ("T", "len(result) == len(a) + len(b)"),
+        ("T", "forall(range(0, len(a)), lambda j: result[j] == a[j])"),
+        ("F", "result is a"),
+        ("F", "forall(range(0, len(result)), lambda j: result[j] == a[j])"),
+    ], fresh_result=True)
+    probe("dict_sum", {"d": COMP}, INT, [
+        ("T", "implies(len(d) == 0, result == 0)"),
+        ("F", "result == 0"),
+        ("F", "result >= 0"),
+    ], loops={0: {"inv": ["implies(forall(STR, lambda q: not done(q)), t == 0)"]}})
+    probe("dict_copy", {"d": COMP}, COMP, [
+        ("T", "get0(result, 'z') == 0 and 'z' in result"),
+        ("T", "forall(STR, lambda q: implies(q != 'z', get0(result, q) == get0(d, q)))"),
+        ("F", "'z' in d"),
+        ("F", "result is d"),
+    ], fresh_result=True)
+    probe("truediv", {"a": INT}, Ty("real"), [
+        ("T", "implies(a == 7, result * 2 == 7)"),
+        ("F", "implies(a == 7, result == 3)"),
+    ])
+    probe("halves", {"s": STR}, STR, [
+        ("T", "implies(not contains(s, '.'), result == s)"),
+        ("F", "result == s"),
+    ])
+    probe("has_dot", {"s": STR}, BOOL, [
+        ("T", "implies(s == 'a.b', result)"),
+        ("T", "implies(s == 'ab', not result)"),
+        ("F", "result"),
+    ])
+    probe("maxlen", {"a": LI, "b": LI}, INT, [
+        ("T", "result >= len(a) and result >= len(b)"),
+        ("F", "result == len(a)"),
+    ])
+    probe("nested_set", {"rows": LL}, INT, [
+        ("T", "implies(not (rows[0] is rows[1]), result == old(len(rows[1])))"),
+        ("F", "result == old(len(rows[1]))"),     # false when rows[0] is rows[1]
+    ], modifies=["rows[0]"], raises={"IndexError": "len(rows) < 2"})
+    probe("early", {"xs": LI}, INT, [
+        ("T", "len(xs) == old(len(xs)) + 1"),
+        ("T", "implies(old(len(xs)) == 0, result == -1)"),
+        ("F", "len(xs) == old(len(xs))"),
+        ("F", "result == -1"),
+    ], modifies=["xs"])
